@@ -72,6 +72,12 @@ check("C08", "model_checking",
       "TLA+ reference tokenizer with nondeterministic input explored exhaustively by TLC, spec->impl replay; stream monitor on simulated inputs",
       "DESIGN.md section 6 C08")
 
+check("C24", "model_checking",
+      "DiagPos.tla derives lines `print! <prefix arguments>, <erroneous construct>` with up to 2 (quick) / 3 (thorough) prefix arguments from a 13-member palette of constructs whose source length differs from their cooked token length (five escape kinds, interpolation, 2/3/4-byte characters, inline block comment, digit separator, non-ASCII identifier), after nothing / a multi-line string / a multi-line comment, for an undefined name and an ill-typed operand, and computes the expected line and columns. Each of the 1092 (quick) / 14 k (thorough) programs is compiled in-process: every diagnostic must lie inside the input, the injected error's location must cover exactly the offending text, and rendering every diagnostic must not crash.",
+      "Trusted: TLC; the palette table (cross-checked against the concrete strings at run time); a type error may be located at the operand or the whole expression.",
+      "TLA+ derivation of error lines with position arithmetic, exhaustive TLC enumeration, spec->impl replay through the in-process compiler",
+      "DESIGN.md section 6 C24")
+
 NOT_APPLICABLE = {
     "C16": "static comparison of opcode/magic tables with external ground truth: no state or behaviour for a TLA+ specification to constrain (DESIGN.md section 7)",
     "C27": "data audit of ~150 declaration files against installed interpreters/typeshed: no behaviour to model in TLA+ (DESIGN.md section 7)",
